@@ -1,8 +1,13 @@
 """C12 — TryFrom<repr> is the exact inverse of the enum-to-integer cast."""
+import os
 import re
+import sys
 
 from . import common as C
 from . import fmtgen as G
+
+sys.path.insert(0, os.path.join(C.VERIF, "tools"))
+import gen_tables  # noqa: E402
 
 INTS = ["u8", "u16", "u32", "u64", "u128", "usize", "i8", "i16", "i32", "i64", "i128", "isize"]
 RANGE = {"u8": (0, 255), "i8": (-128, 127), "u16": (0, 65535), "i16": (-32768, 32767),
@@ -245,6 +250,9 @@ def run(tier):
     extra, cov, corr_bad = [], {}, []
     try:
         inproc = C.cargo_build_inproc()
+        # the integer names `attr::ReprInt` recognises are re-read from the source: source_repr_ints_are_the_model is re-checked
+        os.makedirs(gen_tables.GEN, exist_ok=True)
+        reprs = gen_tables.gen_repr_ints()
         lean_ok, _ = C.lake_build(["Dm.Props.C12", "dmdriver"])
         n = 3000 if tier == "quick" else 60000
         cases = []
@@ -273,7 +281,8 @@ def run(tier):
             if ma is not None and line != ma:
                 corr_bad.append((c, line, ma))
         checks, nen, samples = behaviour(res, rng, tier)
-        extra = [("correspondence: model of try_from.rs (repr, constants, arms) == working-tree expansion", lean_ok and not corr_bad)]
+        extra = [("correspondence: model of try_from.rs (repr, constants, arms) == working-tree expansion", lean_ok and not corr_bad),
+                 ("translator: the integer names and the default of attr::ReprInt were read completely", not reprs["problems"])]
         cov = {
             "evaluations": n + checks,
             "distinct_nontrivial": len({c["src"] for c in cases}),
